@@ -464,8 +464,9 @@ class C14(F.PropCheck):
                 exp = cs(self.urldecode(raw)[:sz - 1]); got = cs(img[o:o + sz])
                 if n == b'wpw' and exp == b'': continue
                 if got != exp:
-                    v.append('%ssegment %d: %s: the stored value is not the URL-decoded submitted value of %s= (stored %r, expected %r)' %
-                             (label, si, f, n.decode(), got[-24:], exp[-24:]))
+                    d = next((i for i in range(min(len(got), len(exp))) if got[i] != exp[i]), min(len(got), len(exp)))
+                    v.append('%ssegment %d: %s: the stored value is not the URL-decoded submitted value of %s= (lengths %d/%d, first difference at byte %d: stored %r, expected %r)' %
+                             (label, si, f, n.decode(), len(got), len(exp), d, got[max(0, d - 8):d + 16], exp[max(0, d - 8):d + 16]))
             elif re.fullmatch(rb'-?[0-9]{1,11}', raw) and len(raw) <= 11:
                 val = int(raw)
                 if n == b'prt' and b'lid' not in names:
